@@ -104,7 +104,8 @@ Theorem c07_single_statement_generic : forall T, tmpls_safe T = true -> forall s
 Proof. exact single_statement. Qed.
 Print Assumptions c07_single_statement_generic.
 
-(* full statement, FALSE on the unchanged tree (F3: the `neg` template is [-{l}]):
+(* full statement, still FALSE (residual of F3: the `neg` template is now [-{l:14}], which parenthesises a negated operand
+   but not a negative number literal or an s-string starting with a minus sign: `--3`):
      Theorem c07_single_statement : forall s, Out all_tmpls s -> no_opener s = true.   i.e.  tmpls_safe all_tmpls = true *)
 Theorem c07_single_statement_refuted : exists s, Out all_tmpls s /\ no_opener s = false.
 Proof. apply single_statement_refuted. vm_compute. tauto. Qed.
@@ -154,8 +155,11 @@ Print Assumptions c07_feat_set_ops_distinct.
 Definition except_all_ok (df : list N * feat) : bool :=
   implies (except_all (snd df)) (supported (fst df) (KSetOp Except QAll))
   && implies (intersect_all (snd df)) (supported (fst df) (KSetOp Intersect QAll)).
+Theorem c07_witness_bigquery : existsb (fun df => negb (except_all_ok df)) feats = true.
+Proof. vm_compute. reflexivity. Qed.
+Print Assumptions c07_witness_bigquery.
 Theorem c07_feat_except_all_refuted : exists df, In df feats /\ except_all_ok df = false.
-Proof. exists (d_bigquery, nth 1 (map snd feats) (mkFeat false 0 false 0 false false false false false false false false false)). vm_compute. tauto. Qed.
+Proof. destruct (proj1 (existsb_exists _ _) c07_witness_bigquery) as (df & Hin & H). exists df. split; [exact Hin|]. now destruct (except_all_ok df). Qed.
 Print Assumptions c07_feat_except_all_refuted.
 Theorem c07_feat_except_all_partial : all_ops_ok (fun df => is_ (fst df) [d_bigquery] || except_all_ok df) = true.
 Proof. vm_compute. reflexivity. Qed.
@@ -170,8 +174,11 @@ Print Assumptions c07_feat_column_exclude.
 (* full statement, FALSE on the unchanged tree (redshift claims zero-column SELECT):
      all_ops_ok (fun df => implies (supports_zero_columns (snd df)) (supported (fst df) KZeroCols)) = true *)
 Definition zero_cols_ok (df : list N * feat) : bool := implies (supports_zero_columns (snd df)) (supported (fst df) KZeroCols).
+Theorem c07_witness_redshift : existsb (fun df => negb (zero_cols_ok df)) feats = true.
+Proof. vm_compute. reflexivity. Qed.
+Print Assumptions c07_witness_redshift.
 Theorem c07_feat_zero_columns_refuted : exists df, In df feats /\ zero_cols_ok df = false.
-Proof. exists (d_redshift, nth 9 (map snd feats) (mkFeat false 0 false 0 false false false false false false false false false)). vm_compute. tauto. Qed.
+Proof. destruct (proj1 (existsb_exists _ _) c07_witness_redshift) as (df & Hin & H). exists df. split; [exact Hin|]. now destruct (zero_cols_ok df). Qed.
 Print Assumptions c07_feat_zero_columns_refuted.
 Theorem c07_feat_zero_columns_partial : all_ops_ok (fun df => is_ (fst df) [d_redshift] || zero_cols_ok df) = true.
 Proof. vm_compute. reflexivity. Qed.
@@ -192,30 +199,48 @@ Proof. vm_compute. reflexivity. Qed.
 Print Assumptions c07_feat_group_star_concat.
 
 (* LIMIT / OFFSET / FETCH as translate_select_pipeline emits them, for every take range.
-   full statement, FALSE on the unchanged tree (F27; and OFFSET n ROWS without ORDER BY under use_fetch):
-     forall d f, In (d, f) feats -> forall ordered s e, forallb (supported d) (take_uses (use_fetch f) ordered s e) = true *)
+   F27 is repaired (limit_for_bare_offset): an engine without OFFSET-without-LIMIT has the flag *)
+Definition has_bare (f : feat) : bool := match bare_offset_limit f with Some _ => true | None => false end.
+Theorem c07_feat_bare_offset : all_ops_ok (fun df => supported (fst df) KOffsetNoLimit || has_bare (snd df)) = true.
+Proof. vm_compute. reflexivity. Qed.
+Print Assumptions c07_feat_bare_offset.
+
+(* full statement, still FALSE (open finding N7: OFFSET n ROWS without ORDER BY under use_fetch):
+     forall d f, In (d, f) feats -> forall ordered s e, forallb (supported d) (take_uses (use_fetch f) (has_bare f) ordered s e) = true *)
+Theorem c07_take_witness : existsb (fun df => negb (forallb (supported (fst df)) (take_uses (use_fetch (snd df)) (has_bare (snd df)) false (Some 3) None))) feats = true.
+Proof. vm_compute. reflexivity. Qed.
+Print Assumptions c07_take_witness.
 Theorem c07_take_ok_refuted : exists d f ordered s e,
-  In (d, f) feats /\ forallb (supported d) (take_uses (use_fetch f) ordered s e) = false.
+  In (d, f) feats /\ forallb (supported d) (take_uses (use_fetch f) (has_bare f) ordered s e) = false.
 Proof.
-  exists d_sqlite, (nth 10 (map snd feats) (mkFeat false 0 false 0 false false false false false false false false false)), true, (Some 3), None.
-  vm_compute. tauto.
+  destruct (proj1 (existsb_exists _ _) c07_take_witness) as ([d f] & Hin & H).
+  exists d, f, false, (Some 3), None. split; [exact Hin|]. cbn [fst snd] in H. now destruct (forallb _ _).
 Qed.
 Print Assumptions c07_take_ok_refuted.
 
-Theorem c07_take_table_except_known : take_table use_fetch feats true = true.
+Theorem c07_take_table_except_known : take_table use_fetch has_bare feats true = true.
 Proof. vm_compute. reflexivity. Qed.
 Print Assumptions c07_take_table_except_known.
 
 Theorem c07_take_ok_partial : forall d f, In (d, f) feats -> forall ordered s e,
-  take_known_b d (use_fetch f) ordered (has_off s) (has_lim e) = false ->
-  forallb (supported d) (take_uses (use_fetch f) ordered s e) = true.
-Proof. exact (fun d f Hin o s e Hk => take_table_sound use_fetch feats true c07_take_table_except_known d f Hin o s e Hk). Qed.
+  take_known_b (use_fetch f) ordered (has_off s) (has_lim e) = false ->
+  forallb (supported d) (take_uses (use_fetch f) (has_bare f) ordered s e) = true.
+Proof. exact (fun d f Hin o s e Hk => take_table_sound use_fetch has_bare feats true c07_take_table_except_known d f Hin o s e Hk). Qed.
 Print Assumptions c07_take_ok_partial.
 
-(* an operator whose resolved template is `null` and that is not emitted natively is a compile error of the model;
-   the harness compares [op_outcome] with the compiler for every (dialect, operator) *)
+(* in particular (F27, now a full-strength statement): no dialect without use_fetch emits a LIMIT/OFFSET shape its engine lacks *)
+Theorem c07_take_ok_limit_dialects : forall d f, In (d, f) feats -> use_fetch f = false -> forall ordered s e,
+  forallb (supported d) (take_uses (use_fetch f) (has_bare f) ordered s e) = true.
+Proof.
+  intros d f Hin Hu o s e. apply (c07_take_ok_partial d f Hin). unfold take_known_b. now rewrite Hu.
+Qed.
+Print Assumptions c07_take_ok_limit_dialects.
+
+(* an operator that is not emitted natively and has no usable template for the dialect (a `null` body, or no
+   implementation at all) is a compile error of the model; the harness compares [op_outcome] with the compiler for
+   every (dialect, operator) *)
 Theorem c07_unsupported_is_error : forall d op,
-  existsb (leqb op) GenDialectFeat.native_ops = false -> resolve_op std_ops d op = Some true ->
+  existsb (leqb op) GenDialectFeat.native_ops = false -> resolve_op std_ops d op <> Some false ->
   op_outcome std_ops GenDialectFeat.native_ops d op = CompileError.
 Proof. exact (unsupported_is_error std_ops GenDialectFeat.native_ops). Qed.
 Print Assumptions c07_unsupported_is_error.
